@@ -1,6 +1,7 @@
 package main
 
 import (
+	"net/url"
 	"strconv"
 	"strings"
 	"time"
@@ -12,27 +13,124 @@ var (
 	schemes   = []string{"http", "https"}
 	domains   = []string{"example.com", "a.example.com", "evil-example.com", "example.com.evil.io", "xexample.com", "site.io", "localhost", "127.0.0.1"}
 	ports     = []string{"", "", "", ":8080", ":443"}
-	reqHosts  = []string{"api.site.io", "example.com", "app.example.com", "localhost:3000", "site.io:8080", "API.Site.io"}
+	reqHosts  = []string{"api.site.io", "example.com", "app.example.com", "localhost:3000", "site.io:8080", "API.Site.io", "[::1]:3000", "example.com."}
 	backends  = []string{"st", "st", "st", "st", "ss", "ss", "sm", "sm", "mem"}
 	extractor = []string{"header", "header", "form", "query", "param", "cookie", "custom"}
 	unsafeM   = []string{"POST", "POST", "POST", "PUT", "DELETE", "PATCH"}
 	safeM     = []string{"GET", "GET", "HEAD", "OPTIONS", "TRACE"}
+
+	// the URL vocabulary of C19's generator (net/url shapes an origin can be written in)
+	schemesOK  = []string{"http", "https", "http", "https", "http", "https", "HTTP", "Https", "chrome-extension", "a+b.c-1", "x"}
+	schemesAny = []string{"http", "https", "", "1http", "ht tp", "-x", "h_t", "HTTPS", "a:b", "http:", "x", "ftp"}
+	hostsPlain = []string{"example.com", "a.example.com", "b.a.example.com", "evil-example.com", "examplexcom",
+		"example.com.evil.io", "xexample.com", "localhost", "site.io", "127.0.0.1", "example.com.", "xn--bcher-kva.example",
+		"sub.xn--p1ai", "ex_ample.com", "a"}
+	hostsV6  = []string{"[::1]", "[2001:db8::1]", "[::FFFF:1.2.3.4]", "[fe80::1%25en0]"}
+	hostsOdd = []string{"", "a%25b.com", "ex%41mple.com", "exa mple.com", "ex*mple.com", "[::1", "::1", "::1]", "[::1]x",
+		"[fe80::1%25e%20n]", "[fe80::1%25e%2Fn]", "[fe80::1%25%41]", "a..b", ".", "ex%zzmple.com", "ex%2", "a<b>c", "a\"b", "a\\b", "a^b", "a\tb", "exa\x7fmple.com",
+		"a,b", "a;b=c", "(a)", "a'b", "a!b", "a$b", "a&b", "a+b", "a~b", "a|b", "a{b}", "a`b"}
+	portsOK   = []string{"", "", "", "", ":8080", ":443", ":80", ":3000"}
+	portsAny  = []string{"", ":", ":0", ":65536", ":80a", ":-1", ":99999999999999999999", ":8080", ": 80"}
+	usersOK   = []string{"user@", "user:pw@", "u%40x@", "a@b@", ":@", "@", "user:p:w@"}
+	usersAny  = []string{"us er@", "u%zz@", "u/x@", "u?x@", "u#x@", "u[x@", "user:p%w@", "\xc3\xa9@", "u%@"}
+	tailsOK   = []string{"", "", "", "", "", "/", "/", "?", "/?", "#", "/#", "?#", "/?#"}
+	tailsAny  = []string{"//", "/path", "?q=1", "#frag", "/%2F", "/%zz", "/.", ";x", "/?q", "/#f", "??", "?#f", "#?", "/ ", "\\", "/*", "#%zz", "#%41", "?%zz"}
+	tailsPath = []string{"/", "/page", "/a/b?x=1", "/p#frag", "?q=1", "#f", "/%41", "/a%zz", "?", "#", "/?#", "//x", "/x y"}
 )
 
-func genTrusted(r *gen.Rand) []string {
+func mixCase(r *gen.Rand, s string) string {
+	if !r.Chance(1, 4) {
+		return s
+	}
+	b := []byte(s)
+	for i := range b {
+		if r.Chance(1, 3) && b[i] >= 'a' && b[i] <= 'z' {
+			b[i] -= 32
+		}
+	}
+	return string(b)
+}
+
+func genHost(r *gen.Rand) string {
+	if r.Chance(1, 6) {
+		return gen.Pick(r, hostsV6)
+	}
+	return gen.Pick(r, hostsPlain)
+}
+
+// genEntry builds one TrustedOrigins entry over net/url's shapes. clean: a shape the constructor
+// should accept (http/https, optional userinfo, host, optional port, a tail that normalisation
+// strips); otherwise one or two components come from the odd vocabulary (most must be refused).
+func genEntry(r *gen.Rand, wr *gen.Writer, wildcard bool) string {
+	clean := r.Chance(7, 8)
+	scheme, user, host, port, tail := gen.Pick(r, schemesOK[:8]), "", genHost(r), gen.Pick(r, portsOK), gen.Pick(r, tailsOK)
+	if r.Chance(1, 3) {
+		host = gen.Pick(r, domains[:6])
+	}
+	if r.Chance(1, 8) {
+		user = gen.Pick(r, usersOK)
+	}
+	if !clean {
+		for k := 1 + r.Intn(2); k > 0; k-- {
+			switch r.Intn(5) {
+			case 0:
+				scheme = gen.Pick(r, schemesAny)
+			case 1:
+				user = gen.Pick(r, usersAny)
+			case 2:
+				host = gen.Pick(r, hostsOdd)
+			case 3:
+				port = gen.Pick(r, portsAny)
+			default:
+				tail = gen.Pick(r, tailsAny)
+			}
+		}
+		wr.Count("entry-odd")
+	} else {
+		wr.Count("entry-clean")
+	}
+	sep := "://"
+	if !clean && r.Chance(1, 10) {
+		sep = gen.Pick(r, []string{":/", ":", "//", ":///", "://:"})
+	}
+	var o string
+	if wildcard {
+		switch {
+		case r.Chance(1, 12):
+			// the wildcard in front of a userinfo (the dot belongs to the userinfo), or a second one:
+			// entries the constructor must refuse
+			o = scheme + sep + "*." + gen.Pick(r, []string{"user@", "a@", "u:p@", "@", "*."}) + host + port + tail
+			wr.Count("entry-wild-userinfo")
+		case r.Chance(1, 16):
+			o = scheme + sep + gen.Pick(r, usersOK) + "*." + host + port + tail // userinfo then wildcard: not a "://*." entry
+		default:
+			o = scheme + sep + "*." + host + port + tail
+		}
+	} else {
+		o = scheme + sep + user + host + port + tail
+	}
+	if r.Chance(1, 6) {
+		o = gen.Pick(r, []string{" ", "  ", "      ", ""}) + o + gen.Pick(r, []string{"", " ", "  "})
+		wr.Count("entry-spaces")
+	}
+	return mixCase(r, o)
+}
+
+func genTrusted(r *gen.Rand, wr *gen.Writer) []string {
 	var out []string
 	for i := r.Intn(4); i > 0; i-- {
-		switch r.Intn(10) {
-		case 0, 1, 2, 3:
+		switch r.Intn(12) {
+		case 0, 1, 2:
 			out = append(out, gen.Pick(r, schemes)+"://*."+gen.Pick(r, domains[:6])+gen.Pick(r, ports))
-		case 4:
-			out = append(out, gen.Pick(r, schemes)+"://"+gen.Pick(r, domains)+"/")
-		case 5:
-			out = append(out, gen.Pick(r, schemes)+"://"+strings.ToUpper(gen.Pick(r, domains)))
-		case 6:
-			if r.Chance(1, 6) {
+		case 3, 4, 5:
+			out = append(out, genEntry(r, wr, true))
+		case 6, 7:
+			out = append(out, genEntry(r, wr, false))
+		case 8:
+			if r.Chance(1, 4) {
 				// invalid entries: the constructor must panic
-				out = append(out, gen.Pick(r, []string{"localhost", "https://*", "ftp://example.com", "https://*.*.com", "https://example.com/path", "https://example.com?x=1"}))
+				out = append(out, gen.Pick(r, []string{"localhost", "https://*", "ftp://example.com", "https://*.*.com", "https://example.com/path",
+					"https://example.com?x=1", "null", "", " ", "//example.com", "http://", "https://*.", "http://*./", "*.example.com", " * "}))
 			} else {
 				out = append(out, gen.Pick(r, []string{"", " "})+gen.Pick(r, schemes)+"://"+gen.Pick(r, []string{"", "*."})+gen.Pick(r, domains[:6])+" ")
 			}
@@ -41,6 +139,21 @@ func genTrusted(r *gen.Rand) []string {
 		}
 	}
 	return out
+}
+
+// entryOrigin: what net/url reads off a configured entry (trimmed, the `*` of a "://*." entry cut
+// out): scheme and host in lower case, and whether it is a wildcard entry. Used only to aim requests.
+func entryOrigin(e string) (scheme, host string, wild, ok bool) {
+	o := strings.Trim(e, " ")
+	if i := strings.Index(o, "://*."); i >= 0 {
+		o = o[:i+3] + o[i+4:]
+		wild = true
+	}
+	u, err := url.Parse(o)
+	if err != nil || u.Host == "" {
+		return "", "", wild, false
+	}
+	return strings.ToLower(u.Scheme), strings.ToLower(u.Host), wild, true
 }
 
 // genOriginLike produces Origin/Referer values aimed at the trust decision.
@@ -52,34 +165,58 @@ func genOriginLike(r *gen.Rand, c cfgIn, host string, https bool, referer bool) 
 	same := sch + "://" + strings.ToLower(host)
 	pathy := func(s string) string {
 		if referer && r.Chance(1, 2) {
-			return s + gen.Pick(r, []string{"/", "/page", "/a/b?x=1", "/p#frag", "?q=1"})
+			return s + gen.Pick(r, tailsPath)
+		}
+		if !referer && r.Chance(1, 12) {
+			return s + gen.Pick(r, tailsOK)
 		}
 		return s
 	}
-	switch r.Intn(14) {
+	// ways to write the same scheme://host: userinfo, letter case
+	dress := func(scheme, hostport string) string {
+		switch r.Intn(8) {
+		case 0:
+			return scheme + "://" + gen.Pick(r, usersOK) + hostport
+		case 1:
+			return strings.ToUpper(scheme) + "://" + hostport
+		case 2:
+			return mixCase(r, scheme+"://"+hostport)
+		default:
+			return scheme + "://" + hostport
+		}
+	}
+	switch r.Intn(16) {
 	case 0, 1, 2:
-		return pathy(same)
+		return pathy(dress(sch, strings.ToLower(host)))
 	case 3:
-		// same host, other scheme / port / case
-		return pathy(gen.Pick(r, []string{gen.Pick(r, schemes) + "://" + host, same + ":8443", strings.ToUpper(same), sch + "://x" + host}))
-	case 4, 5, 6, 7, 8:
+		// same host, other scheme / port / case / trailing dot / userinfo trick
+		return pathy(gen.Pick(r, []string{gen.Pick(r, schemes) + "://" + host, same + ":8443", strings.ToUpper(same), sch + "://x" + host,
+			same + ".", sch + "://" + host + "@evil.com", sch + "://evil.com#@" + host, sch + "://evil.com/" + host}))
+	case 4, 5, 6, 7, 8, 9:
 		if len(c.trusted) == 0 {
 			return pathy(gen.Pick(r, schemes) + "://" + gen.Pick(r, domains) + gen.Pick(r, ports))
 		}
-		t := strings.TrimSuffix(strings.TrimSpace(gen.Pick(r, c.trusted)), "/")
-		i := strings.Index(t, "://*.")
-		if i < 0 {
-			switch r.Intn(5) {
+		es, eh, wild, ok := entryOrigin(gen.Pick(r, c.trusted))
+		if !ok {
+			return pathy(gen.Pick(r, schemes) + "://" + genHost(r) + gen.Pick(r, portsOK))
+		}
+		if !wild {
+			switch r.Intn(8) {
 			case 0:
-				return pathy(t + gen.Pick(r, []string{":81", ".evil.io", "x"}))
+				return pathy(es + "://" + eh + gen.Pick(r, []string{":81", ".evil.io", "x", "."}))
 			case 1:
-				return pathy(strings.Replace(t, "://", "://sub.", 1))
+				return pathy(es + "://sub." + eh)
+			case 2:
+				return pathy(es + "://" + eh + "@evil.com")
+			case 3:
+				return pathy(gen.Pick(r, schemes) + "://" + eh)
 			default:
-				return pathy(t)
+				return pathy(dress(es, eh))
 			}
 		}
-		pre, dom := t[:i+3], t[i+5:] // dom without the leading "*."
-		switch r.Intn(12) {
+		dom := strings.TrimPrefix(eh, ".") // host suffix without the leading dot
+		pre := es + "://"
+		switch r.Intn(14) {
 		case 0:
 			return pathy(pre + "x" + dom) // look-alike: no dot
 		case 1:
@@ -93,18 +230,25 @@ func genOriginLike(r *gen.Rand, c cfgIn, host string, https bool, referer bool) 
 		case 5:
 			return pathy(gen.Pick(r, schemes) + "://sub." + dom) // maybe wrong scheme
 		case 6:
-			return pathy(pre + "sub." + dom + gen.Pick(r, []string{":8080", ".evil.io", "x"}))
+			return pathy(pre + "sub." + dom + gen.Pick(r, []string{":8080", ".evil.io", "x", "."}))
 		case 7:
-			return pathy(pre + gen.Pick(r, []string{"user@sub.", ".evil", ".x."}) + dom)
+			return pathy(pre + gen.Pick(r, []string{"user@sub.", ".evil", ".x.", "u:p@", "user@"}) + dom)
 		case 8:
 			return pathy(pre + "sub." + dom + "@evil.com")
+		case 9:
+			return pathy(pre + "evil.com@sub." + dom)
 		default:
-			return pathy(pre + gen.Pick(r, []string{"sub.", "a.b.", "SUB."}) + dom)
+			return pathy(dress(es, gen.Pick(r, []string{"sub.", "a.b.", "SUB."})+dom))
 		}
-	case 9:
-		return gen.Pick(r, []string{"null", "NULL", "https://", "://x", "example.com", "https://exa mple.com", "https://a.example.com%zz", "%", "https:evil.com/.example.com", "//example.com"})
+	case 10:
+		return gen.Pick(r, []string{"null", "NULL", "Null", " null", "https://", "://x", "example.com", "https://exa mple.com", "https://a.example.com%zz", "%",
+			"https:evil.com/.example.com", "//example.com", "*", "https://[::1", "http://a:b:c", "http://[::1]:x", "\x7f", "http://a\tb"})
+	case 11:
+		// any URL shape
+		return gen.Pick(r, schemesOK) + "://" + gen.Pick(r, append([]string{""}, usersOK...)) + gen.Pick(r, append(hostsOdd, hostsV6...)) +
+			gen.Pick(r, portsAny) + gen.Pick(r, append(tailsOK, tailsAny...))
 	default:
-		return pathy(gen.Pick(r, schemes) + "://" + gen.Pick(r, domains) + gen.Pick(r, ports))
+		return pathy(dress(gen.Pick(r, schemes), genHost(r)+gen.Pick(r, portsOK)))
 	}
 }
 
@@ -131,7 +275,21 @@ func mangle(r *gen.Rand, t string) string {
 // records only concrete values, so the case replays and shrinks as plain data.
 func genCase(r *gen.Rand, wr *gen.Writer) (cfgIn, []op, string) {
 	c := cfgIn{backend: gen.Pick(r, backends), ext: gen.Pick(r, extractor), single: r.Chance(2, 5),
-		idle: gen.Pick(r, []int{1, 2, 5, 10, 60}), trusted: genTrusted(r)}
+		idle: gen.Pick(r, []int{1, 2, 5, 10, 60}), trusted: genTrusted(r, wr)}
+	// front: ErrorHandler, Next, cookie fields
+	c.eh = gen.Pick(r, []string{"d", "d", "c", "c", "n"})
+	c.next = r.Chance(1, 4)
+	if r.Chance(1, 2) {
+		c.ckSecure, c.ckHTTPOnly, c.ckSessOnly = r.Chance(1, 3), r.Chance(1, 2), r.Chance(1, 4)
+		c.ckSameSite = gen.Pick(r, []string{"", "Lax", "Strict", "None", "none", "STRICT", "disabled", "Disabled", "bogus", "lax"})
+		c.ckDomain = gen.Pick(r, []string{"", "example.com", "Example.COM", ".site.io"})
+		c.ckPath = gen.Pick(r, []string{"", "/", "/app", "app", "/a/b/", "a/b"})
+		wr.Count("cookie-fields")
+	}
+	wr.Count("eh-" + c.eh)
+	if c.next {
+		wr.Count("next-set")
+	}
 	wr.Count("backend-" + c.backend)
 	wr.Count("ext-" + c.ext)
 	w, panicked := newWorld(c)
@@ -255,6 +413,10 @@ func genCase(r *gen.Rand, wr *gen.Writer) (cfgIn, []op, string) {
 		if (!unsafe && r.Chance(1, 6)) || (unsafe && r.Chance(1, 9)) {
 			o.del = true
 		}
+		if (c.next && r.Chance(1, 4)) || (!c.next && r.Chance(1, 25)) {
+			o.skip = true
+			wr.Count("skip-header")
+		}
 		if faultsOK && r.Chance(1, 7) {
 			o.faults = gen.Pick(r, []string{"g", "s", "d", "gs", "sd", "gsd"})
 			wr.Count("faulted-req")
@@ -264,7 +426,7 @@ func genCase(r *gen.Rand, wr *gen.Writer) (cfgIn, []op, string) {
 		obs = append(obs, res)
 		// update the jar from the answer
 		f := strings.Split(res, ",")
-		if len(f) == 9 {
+		if len(f) == 10 {
 			if f[0] == "1" {
 				if unsafe {
 					wr.Count("unsafe-pass")
